@@ -755,6 +755,72 @@ MODELS["std::option::Option::unwrap"] = _unwrap(1)
 MODELS["std::option::Option::expect"] = _unwrap(1)
 
 
+@model("std::ops::BitOr::bitor", "std::ops::BitAnd::bitand", "std::ops::Not::not", "std::ops::BitXor::bitxor")
+def m_bool_ops(ctx, args):
+    """Bit operators on `subtle::Choice` / bool wrappers (Choice is identified with the bool it converts to)."""
+    if ctx.desc.get("local") and ctx.did in ctx.eng.prog.bodies:
+        return NotImplemented
+    eng = ctx.eng
+    t0 = ctx.arg_ty(0)
+    if t0 is None or _short(t0) not in ("Choice", "bool"):
+        return ("call", ctx.oq, tuple(val(ctx, a) for a in args))
+    xs = [eng.tobdd(val(ctx, a)) for a in args]
+    nm = ctx.oq.rsplit("::", 1)[-1]
+    if nm == "not":
+        return ("b", eng.bdd.NOT(xs[0]))
+    if nm == "bitor":
+        return ("b", eng.bdd.OR(xs[0], xs[1]))
+    if nm == "bitand":
+        return ("b", eng.bdd.AND(xs[0], xs[1]))
+    return ("b", eng.bdd.ite(xs[0], eng.bdd.NOT(xs[1]), xs[1]))
+
+
+@model("std::option::Option::map_or")
+def m_opt_map_or(ctx, args):
+    eng = ctx.eng
+    v = args[0]
+    c = variant_cond(eng, v, 1)
+    if c == 0:
+        return args[1]
+    r = guarded(ctx, c, lambda: call_closure(ctx, args[2], [payload(eng, v, 1)]))
+    return eng.mk_ite(c, r, args[1])
+
+
+@model("std::option::Option::map_or_else")
+def m_opt_map_or_else(ctx, args):
+    eng = ctx.eng
+    v = args[0]
+    c = variant_cond(eng, v, 1)
+    some_r = guarded(ctx, c, lambda: call_closure(ctx, args[2], [payload(eng, v, 1)])) if c != 0 else None
+    none_r = guarded(ctx, eng.bdd.NOT(c), lambda: call_closure(ctx, args[1], [])) if c != 1 else None
+    if c == 1:
+        return some_r
+    if c == 0:
+        return none_r
+    return eng.mk_ite(c, some_r, none_r)
+
+
+@model("std::iter::Iterator::position")
+def m_position(ctx, args):
+    """`it.position(p)`: Some(index of the first match) iff any element matches."""
+    eng = ctx.eng
+    r = m_any_all(_Renamed(ctx, "std::iter::Iterator::any"), args)
+    if r[0] != "b":
+        return ("call", ctx.oq, tuple(args))
+    return eng.mk_ite(r[1], some(("first_match", r[1])), NONE)
+
+
+class _Renamed:
+    """A call context presented under another callee name (to share a model)."""
+
+    def __init__(self, ctx, oq):
+        self.__dict__["_ctx"] = ctx
+        self.__dict__["oq"] = oq
+
+    def __getattr__(self, k):
+        return getattr(self._ctx, k)
+
+
 @model("std::option::Option::is_some")
 def m_is_some(ctx, args):
     return ("b", variant_cond(ctx.eng, val(ctx, args[0]), 1))
